@@ -147,8 +147,15 @@ def readcodescilab_complex(numtype, shape, endianness,
                          endianness=endianness,
                          filepath=filepath, varname=varname)
     dimstr = ",:" * ndim
-    ct += f'{varname} = complex(squeeze({varname}(1{dimstr})),squeeze' \
-          f'({varname}(2{dimstr})));\n'
+    if ndim == 1:
+        ct += f'{varname} = complex({varname}(1{dimstr}),' \
+              f'{varname}(2{dimstr}));\n'
+    else:
+        # do not use squeeze: it would also remove axes of the array itself
+        # that have length 1
+        dims = list(shape)[::-1]
+        ct += f'{varname} = complex(matrix({varname}(1{dimstr}), {dims}),' \
+              f'matrix({varname}(2{dimstr}), {dims}));\n'
     return ct
 
 
